@@ -485,7 +485,7 @@ class BubblePointBeta:
         if N == 0:
             raise ValueError('no components present')
         if N == 1:
-            T = self.chemicals.tuple[fn.first_true_index(positives)].Psat(T)
+            P = self.chemicals.tuple[fn.first_true_index(positives)].Psat(T)
             y = z.copy()
         else:
             results = self.flasher.flash(T=T, VF=0., zs=z.tolist())
